@@ -53,13 +53,38 @@ def _mutate(d, how):
         d["baseScore"] = -1.0
 
 
-FOREIGN = ("none", "string", "int", "own-class", "other-class", "other-version-object", "object", "json-dict", "scores-tuple", "list")
+FOREIGN = ("none", "string", "int", "own-class", "other-class", "other-version-object", "object", "json-dict", "scores-tuple", "list",
+           "sibling-swap", "sibling-swap", "sibling-value", "sibling-fewer", "sibling-more")
+
+
+def sibling(token, ver, s):
+    """another vector of the SAME version next to s: one optional metric swapped for another one (same number of metrics, same
+    base metrics), one value changed, one metric fewer, one more.  Deterministic in (token, s)."""
+    prefix, m = ref.parse(ver, s)
+    V = spec.VERS[ver]
+    h = runner.h64(s)
+    d = dict(m)
+    defined = [k for k in V.optional if d.get(k, V.nd) != V.nd]
+    free = [k for k in V.optional if k not in d]
+    pick = lambda xs, salt: xs[(h >> salt) % len(xs)]
+    newval = lambda k: [x for x in V.table[k] if x != V.nd][(h >> 20) % len([x for x in V.table[k] if x != V.nd])]
+    if token in ("sibling-swap", "sibling-fewer") and defined:
+        del d[pick(defined, 3)]
+    if token in ("sibling-swap", "sibling-more") and free:
+        k = pick(free, 7)
+        d[k] = newval(k)
+    if token == "sibling-value" or d == m:
+        k = pick(list(V.mandatory), 11)
+        d[k] = [x for x in V.table[k] if x != m[k]][(h >> 15) % (len(V.table[k]) - 1)]
+    return ref.build(prefix, d, [k for k in V.order if k in d])
 
 
 def foreign(token, ver, s, o):
     """comparands of other types, named by a token so that the sequence stays a plain JSON list"""
     cl = obs.classes()
     other = {"2": "3", "3": "4", "4": "2"}[ver]
+    if token.startswith("sibling"):
+        return cl[ver](sibling(token, ver, s))
     if token == "none":
         return None
     if token == "string":
